@@ -414,3 +414,22 @@ class MultiRelationLink(IRelationLink[TCircuitOperation], Generic[TCircuitOperat
     def __repr__(self):
         return f"<RelationLinks>{[node.__class__.__name__ for node in self._reference_nodes]}[{self._relation_type.name}, {self._relation_to_group.name}]"
     # endregion
+
+
+_START_TIME_MEMO_EPOCH: List[int] = [0]
+
+
+def invalidate_start_time_memo() -> None:
+    """
+    Clears the memoised start times of all relation links.
+    A memoised start time depends on the referenced operations, their durations and the duration settings,
+    therefore this is called whenever a relation link, the content of a circuit or a duration setting changes.
+    """
+    RelationLink.get_start_time.cache_clear()
+    MultiRelationLink.get_start_time.cache_clear()
+    _START_TIME_MEMO_EPOCH[0] += 1
+
+
+def get_start_time_memo_epoch() -> int:
+    """:return: Counter that changes whenever memoised times are invalidated (allows memoization elsewhere)."""
+    return _START_TIME_MEMO_EPOCH[0]
